@@ -225,6 +225,10 @@ func init() {
 		return v
 	})
 	reg(vpPath+".Symbolic", func(fr *frame, args []value) value { return true })
+	reg(vpPath+".MarkShared", func(fr *frame, args []value) value {
+		fr.i.markShared(args[0].([]value))
+		return nil
+	})
 	reg(vpPath+".SymbolicMapOrder", func(fr *frame, args []value) value {
 		ex := fr.i.ex
 		ex.mapOrderMax = int(asInt64(args[0]))
@@ -388,13 +392,17 @@ func init() {
 	for _, T := range []string{"Int32", "Int64", "Uint32", "Uint64", "Uintptr", "Pointer"} {
 		reg("sync/atomic.Load"+T, func(fr *frame, args []value) value { return *(args[0].(*value)) })
 		reg("sync/atomic.Store"+T, func(fr *frame, args []value) value {
+			fr.i.inSync++
 			fr.i.setCell(args[0].(*value), args[1])
+			fr.i.inSync--
 			return nil
 		})
 		reg("sync/atomic.Swap"+T, func(fr *frame, args []value) value {
 			p := args[0].(*value)
 			old := *p
+			fr.i.inSync++
 			fr.i.setCell(p, args[1])
+			fr.i.inSync--
 			return old
 		})
 		reg("sync/atomic.CompareAndSwap"+T, func(fr *frame, args []value) value {
@@ -405,7 +413,9 @@ func init() {
 				b = fr.i.ex.branch(eq.(*sym).t)
 			}
 			if b {
+				fr.i.inSync++
 				fr.i.setCell(p, args[2])
+				fr.i.inSync--
 			}
 			return b
 		})
@@ -413,7 +423,9 @@ func init() {
 			reg("sync/atomic.Add"+T, func(fr *frame, args []value) value {
 				p := args[0].(*value)
 				nv := fr.binop(tokenADD, nil, *p, args[1])
+				fr.i.inSync++
 				fr.i.setCell(p, nv)
+				fr.i.inSync--
 				return nv
 			})
 		}
